@@ -79,6 +79,16 @@ def is_minimal_num(b):
     return True
 
 
+def same_bytes(a, b):
+    """a == b stated byte by byte (equal length and equal bytes at every index)"""
+    if len(a) != len(b):
+        return False
+    for i in range(len(a)):
+        if a[i] != b[i]:
+            return False
+    return True
+
+
 def num_ok(b):
     """operand accepted as a number by an arithmetic opcode (consensus: at most 4 bytes)"""
     return len(b) <= MAX_NUM_SIZE
@@ -509,9 +519,10 @@ def check_sequence(tx_version, tx_input_sequence, operand):
         return False
     if tx_input_sequence & SEQUENCE_LOCKTIME_DISABLE_FLAG != 0:
         return False
-    mask = SEQUENCE_LOCKTIME_TYPE_FLAG | SEQUENCE_LOCKTIME_MASK
-    tx_masked = tx_input_sequence & mask
-    n_masked = n & mask
+    # nLockTimeMask = TYPE_FLAG | MASK; x & nLockTimeMask is written as the sum over the two disjoint parts of the mask
+    # (x & (A | B) == (x & A) + (x & B) when A & B == 0), which the SMT encoding handles much faster
+    tx_masked = (tx_input_sequence & SEQUENCE_LOCKTIME_TYPE_FLAG) + (tx_input_sequence & SEQUENCE_LOCKTIME_MASK)
+    n_masked = (n & SEQUENCE_LOCKTIME_TYPE_FLAG) + (n & SEQUENCE_LOCKTIME_MASK)
     if not ((tx_masked < SEQUENCE_LOCKTIME_TYPE_FLAG and n_masked < SEQUENCE_LOCKTIME_TYPE_FLAG)
             or (tx_masked >= SEQUENCE_LOCKTIME_TYPE_FLAG and n_masked >= SEQUENCE_LOCKTIME_TYPE_FLAG)):
         return False
